@@ -876,14 +876,21 @@ def worlds(run, max_worlds=4096):
 
 # ---- predicates on a string variable -> regular language ----------------------------------------
 
-def pred_lang(test, var, alpha):
-    """language of the values of the expression whose text is `var` for which `test` is true"""
+def pred_lang(test, var, alpha, atom=None):
+    """language of the values of the expression whose text is `var` for which `test` is true;
+    `atom(t)` may supply the language of consumer-specific atoms (regex matches, constants ...)"""
     anyl = rx.regex_lang('(?s:.*)', 0, 'fullmatch', alpha=alpha)
 
     def rl(p):
         return rx.regex_lang(p, re.S, 'fullmatch', alpha=alpha)
 
     def go(t):
+        if atom is not None:
+            a = atom(t)
+            if a is not None:
+                return a
+        if isinstance(t, ast.Constant) and isinstance(t.value, bool):
+            return anyl if t.value else anyl.complement()
         if isinstance(t, ast.BoolOp):
             ls = [go(v) for v in t.values]
             out = ls[0]
@@ -892,6 +899,14 @@ def pred_lang(test, var, alpha):
             return out
         if isinstance(t, ast.UnaryOp) and isinstance(t.op, ast.Not):
             return go(t.operand).complement()
+        if isinstance(t, ast.Compare) and len(t.ops) == 1 and isinstance(t.ops[0], (ast.Eq, ast.NotEq, ast.Is, ast.IsNot)):
+            # <boolean expression> == True / False
+            l, r = t.left, t.comparators[0]
+            for a_, b_ in ((l, r), (r, l)):
+                if isinstance(b_, ast.Constant) and isinstance(b_.value, bool) and isinstance(a_, (ast.Call, ast.Compare, ast.BoolOp, ast.UnaryOp)):
+                    inner = go(a_)
+                    same = isinstance(t.ops[0], (ast.Eq, ast.Is)) == b_.value
+                    return inner if same else inner.complement()
         if norm(t) == var:
             return rl('.+')
         if norm(t) in ('%s.strip()' % var, '%s.lstrip()' % var, '%s.rstrip()' % var):
